@@ -331,7 +331,8 @@ def gene_options(rng, fmt, call):
 def render_attrs(attrs, fmt):
     if fmt == "gff3":
         return ";".join("%s=%s" % (k, ",".join(v)) for k, v in attrs)
-    return " ".join('%s "%s";' % (k, x) for k, v in attrs for x in v)
+    # an empty value list is written as key ""; (one item: gffutils reads it back as an empty list)
+    return " ".join('%s "%s";' % (k, x) for k, v in attrs for x in (v if len(v) else [""]))
 
 
 def render(recs, fmt):
@@ -608,3 +609,94 @@ def alias_update(rng, feats):
     if rng.random() < 0.4:
         upd["ID"] = [rng.choice(["newid", "gap1", "7", "x-y"])]
     return upd
+
+
+# -- workload classes added in round 6 --------------------------------------------------------------------------------------
+# (a) transcripts whose exons lie on TWO OR MORE seqids with interleaved starts (trans-splicing, a model continued on another
+#     scaffold): the exons are taken in START order, and a change of seqid between two start-neighbours makes no gap
+SEQID_PATTERNS = ["ABA", "ABAB", "AABBAA", "ABBA", "ABCA", "AABAAB", "ABCABC", "AAB", "ABB", "ABABA", "ABAC"]
+
+
+def multiseq_model(rng, fmt):
+    """Records of 1..2 genes x 1..2 transcripts; the exons (distinct starts per transcript) of at least the first transcript
+    are spread over 2..3 seqids following a pattern such as A B A / A A B B A A / random, so that start order and
+    (seqid, start) order differ; other transcripts stay on one seqid in about half of the cases."""
+    recs = []
+    eid = 0
+    first = True
+    for g in range(rng.choice([1, 1, 2])):
+        gid = "g%d" % g
+        gstrand = rng.choice(STRANDS)
+        offset = rng.choice([0, 0, 5000, 131000])
+        home = rng.choice(SEQIDS)
+        if fmt == "gff3":
+            recs.append({"seqid": home, "featuretype": "gene", "start": offset + 1, "end": offset + 3000,
+                         "strand": gstrand, "attrs": [["ID", [gid]]]})
+        for t in range(rng.choice([1, 1, 2])):
+            tid = "%s.t%d" % (gid, t)
+            tstrand = rng.choice(STRANDS) if rng.random() < 0.3 else gstrand
+            if fmt == "gff3":
+                recs.append({"seqid": home, "featuretype": "mRNA", "start": offset + 1, "end": offset + 3000,
+                             "strand": tstrand, "attrs": [["ID", [tid]], ["Parent", [gid]]]})
+            spread = first or rng.random() < 0.5
+            first = False
+            others = [s for s in SEQIDS if s != home]
+            rng.shuffle(others)
+            names = {"A": home, "B": others[0], "C": others[1]}
+            if not spread:
+                nex = rng.choice([1, 2, 3, 4])
+                seqs = [home] * nex
+            elif rng.random() < 0.7:
+                pat = rng.choice(SEQID_PATTERNS)
+                nex = len(pat)
+                seqs = [names[c] for c in pat]
+            else:
+                nex = rng.choice([3, 4, 5, 6])
+                seqs = [rng.choice([home, home, others[0], others[1]]) for _ in range(nex)]
+            ivs = exon_intervals(rng, nex, offset)
+            if spread and rng.random() < 0.6:
+                # mostly gaps, so that exons of one seqid have room between them
+                ivs, s = [], offset + rng.randrange(1, 30)
+                for _ in range(nex):
+                    e = s + rng.choice([0, 1, 4, 10, 25])
+                    ivs.append((s, e))
+                    s = e + rng.choice([1, 2, 2, 3, 10, 40, 100])
+            mixed = fmt == "gff3" and rng.random() < 0.15
+            block = []
+            for j, (s, e) in enumerate(ivs):
+                eid += 1
+                strand = rng.choice(STRANDS) if mixed else tstrand
+                if fmt == "gff3":
+                    attrs = [["ID", ["e%d" % eid]], ["Parent", [tid]]]
+                else:
+                    attrs = [["gene_id", [gid]], ["transcript_id", [tid]], ["ID", ["e%d" % eid]]]
+                if rng.random() < 0.5:
+                    attrs.append(["exon_number", [str(j + 1)]])
+                if rng.random() < 0.2:
+                    attrs.append(["note", values(rng, "word", rng.choice([1, 2]))])
+                block.append({"seqid": seqs[j], "featuretype": "exon", "start": s, "end": e, "strand": strand, "attrs": attrs})
+            rng.shuffle(block)
+            recs.extend(block)
+    if rng.random() < 0.25:
+        rng.shuffle(recs)
+    return recs
+
+
+# (b) a key BOTH neighbours carry whose value is EMPTY on one (or both) of them: Note= / a bare flag in GFF3, tag ""; in GTF,
+#     {key: []} on an object.  The union is the other neighbour's values.
+EMPTY_KEYS = ["Note", "Dbxref", "tag", "partial"]
+
+
+def empty_values_list(rng, unique_ids=False):
+    """A feature_list of >= 2 features in which 1..2 keys are carried by (almost) every feature, with an EMPTY value list on
+    about half of them (never on 'ID')."""
+    while True:
+        feats = feature_list(rng, unique_ids=unique_ids)
+        if len(feats) >= 2:
+            break
+    for k in rng.sample(EMPTY_KEYS, rng.choice([1, 1, 2])):
+        for r in feats:
+            if rng.random() < 0.9:
+                vals = [] if rng.random() < 0.5 else values(rng, rng.choice(["word", "word", "numeric"]))
+                r["attrs"].insert(rng.randrange(len(r["attrs"]) + 1), [k, vals])
+    return feats
